@@ -113,7 +113,7 @@ pub fn run_case(ctx: &Ctx, c: &Case) -> Vec<Viol> {
             Some(x) => x,
             None => continue,
         };
-        if bytes.len() > 65000 {
+        if bytes.len() > 65435 {
             continue;
         }
         // verbatim genuine datagrams (replays, possibly of another exchange or from the wrong party) may change state
@@ -380,6 +380,46 @@ pub fn run(ctx: &Ctx) {
         ctx.report(v);
     });
     ctx.subspace("verbatim replays: 7 states x 4 sources x 9 genuine kinds (incl. handshake messages of a foreign exchange) x 1..3 repetitions (crash-freedom, healthy peer unaffected)", nb, true);
+
+    // (2c) handshake datagrams that fill the receive buffer to its very end (65435 bytes behind the 100 bytes of
+    // head room): copied key selector of a genuine message, then parts laid out so that the parser runs out of
+    // bytes at every possible point (tag, length, value, end marker, signature length, signature)
+    let fill: Vec<(RState, usize)> = ALL_STATES.iter().flat_map(|s| (0..12usize).map(move |k| (*s, k))).collect();
+    ctx.par_items(&fill, |_, (st, k)| {
+        let lab = Lab::build(*st);
+        let g = lab.genuine(0).clone();
+        if g.len() < 20 {
+            return;
+        }
+        let total = 65435usize;
+        let mut d = vec![0u8; total];
+        d[..9].copy_from_slice(&g[..9]); // marker + salt + key hash of a trusted key
+        // one big unknown part that ends `tail` bytes before the end of the buffer
+        let tail = [0usize, 1, 2, 3, 4, 5, 10, 64, 65, 66, 67, 100][*k];
+        let mut pos = 9;
+        while total - pos > 65535 + 3 + tail {
+            d[pos] = 0x77;
+            d[pos + 1] = 0xff;
+            d[pos + 2] = 0xff;
+            pos += 3 + 65535;
+        }
+        let rest = total - pos;
+        if rest >= 3 + tail {
+            let len = rest - 3 - tail;
+            d[pos] = 0x77;
+            d[pos + 1] = (len >> 8) as u8;
+            d[pos + 2] = len as u8;
+            pos += 3 + len;
+        }
+        // what remains: end marker, signature length 64, signature bytes as far as they fit
+        for (i, b) in d[pos..].iter_mut().enumerate() {
+            *b = if i == 0 { 0 } else if i == 1 { 64 } else { 0x5a };
+        }
+        drop(lab);
+        let v = run_case(ctx, &Case { state: *st, injections: vec![Inj::Datagram(Src::Natural, hex(&d)), Inj::Datagram(Src::Stranger, hex(&d))] });
+        ctx.report(v);
+    });
+    ctx.subspace("buffer-filling handshake datagrams (65435 bytes, copied key selector, parser runs dry at 12 different points) x 7 states", fill.len() as u64 * 2, true);
 
     // (3) large random datagrams
     let big: Vec<(RState, usize)> = ALL_STATES.iter().flat_map(|s| [300usize, 1500, 9000, 65000].into_iter().map(move |l| (*s, l))).collect();
